@@ -64,7 +64,7 @@ Section Share.
   Lemma KT_here : forall cont ty G st S, KT cont ty G st S -> ct G CCns ty cont = None.
   Proof. intros cont ty G st S H. apply H. apply agree_refl. Qed.
 
-  (* ---------- the capture check of the repaired translation (fix <commitcap>) never fires on a guarded term:
+  (* ---------- the capture check of the repaired translation (fix d5d4151) never fires on a guarded term:
      binders that are neither in S nor generated do not occur (by name) in a continuation with the invariant ---------- *)
   Lemma clookup_filter : forall f G x, (forall b, cbvar b = x -> f b = true) -> clookup (filter f G) x = clookup G x.
   Proof.
